@@ -94,12 +94,29 @@ def to_rdflib_graph(triples, cls=None):
     return g
 
 
-def classes_of(triples):
-    return sorted({t[2][1] for t in triples if t[1][1] == RDF_TYPE and t[2][0] == "i"})
+CUSTOM_TYPE = EX + "isA"
 
 
-def instances_of(triples, cls):
-    return [t[0] for t in triples if t[1][1] == RDF_TYPE and t[2] == ("i", cls)]
+def classes_of(triples, type_prop=RDF_TYPE):
+    return sorted({t[2][1] for t in triples if t[1][1] == type_prop and t[2][0] == "i"})
+
+
+def instances_of(triples, cls, type_prop=RDF_TYPE):
+    return [t[0] for t in triples if t[1][1] == type_prop and t[2] == ("i", cls)]
+
+
+def ensure_class(triples, type_prop=RDF_TYPE):
+    """at least one typing triple"""
+    if classes_of(triples, type_prop):
+        return triples
+    return sorted(set(triples) | {(iri(EX + "n0"), iri(type_prop), iri(EX + "C0"))}, key=repr)
+
+
+def retype(triples, type_prop):
+    """the same graph with another instantiation property"""
+    if type_prop == RDF_TYPE:
+        return triples
+    return sorted({(s, iri(type_prop) if p[1] == RDF_TYPE else p, o) for (s, p, o) in triples}, key=repr)
 
 
 def canon(triples):
@@ -277,8 +294,8 @@ def gen_namespaces(rng, shape_prefix_pressure=0.0):
     return ns
 
 
-def gen_target(rng, triples, allow_shape_map=True, min_classes=1):
-    classes = classes_of(triples)
+def gen_target(rng, triples, allow_shape_map=True, min_classes=1, type_prop=RDF_TYPE):
+    classes = classes_of(triples, type_prop)
     if not classes:
         return {"all_classes_mode": True}
     r = rng.random()
@@ -287,13 +304,14 @@ def gen_target(rng, triples, allow_shape_map=True, min_classes=1):
     if r < 0.8 or not allow_shape_map:
         k = rng.randint(min_classes, len(classes))
         return {"target_classes": rng.sample(classes, k)}
-    return {"shape_map_raw": gen_shape_map(rng, triples)}
+    return {"shape_map_raw": gen_shape_map(rng, triples, type_prop=type_prop)}
 
 
-def gen_shape_map(rng, triples, n_items=None):
-    classes = classes_of(triples)
+def gen_shape_map(rng, triples, n_items=None, type_prop=RDF_TYPE):
+    classes = classes_of(triples, type_prop)
     iris = sorted({t[0][1] for t in triples if t[0][0] == "i"})
-    props = sorted({t[1][1] for t in triples if t[1][1] != RDF_TYPE})
+    props = sorted({t[1][1] for t in triples if t[1][1] != type_prop})
+    a = "a" if type_prop == RDF_TYPE else "<%s>" % type_prop
     items = []
     n_items = n_items or rng.randint(1, 3)
     for i in range(n_items):
@@ -301,10 +319,10 @@ def gen_shape_map(rng, triples, n_items=None):
         r = rng.random()
         if r < 0.35 and classes:
             c = rng.choice(classes)
-            items.append("SPARQL'select ?s where {?s a <%s>}'@%s" % (c, lab))
+            items.append("SPARQL'select ?s where {?s %s <%s>}'@%s" % (a, c, lab))
         elif r < 0.6 and classes:
             c = rng.choice(classes)
-            items.append("{FOCUS a <%s>}@%s" % (c, lab))
+            items.append("{FOCUS %s <%s>}@%s" % (a, c, lab))
         elif r < 0.8 and props:
             p = rng.choice(props)
             items.append("{FOCUS <%s> _}@%s" % (p, lab))
